@@ -78,7 +78,13 @@ func runVerdictSchedule(sched []vEvent, lmtp bool, abortWith string) ([]vEvent, 
 	}
 	be.Lock()
 	for t := 1; t <= k; t++ {
-		be.DataPlans = append(be.DataPlans, rec.DataPlan{Err: fmt.Errorf("verdict-%d", t), GateReturn: fmt.Sprintf("g%d", t)})
+		plan := rec.DataPlan{Err: fmt.Errorf("verdict-%d", t), GateReturn: fmt.Sprintf("g%d", t)}
+		if t < k && vsCount%3 == 0 {
+			// the backend of an aborted transfer does not return late, it PANICS late:
+			// that, too, is nobody's business but its own transfer's
+			plan.Panic = true
+		}
+		be.DataPlans = append(be.DataPlans, plan)
 	}
 	be.Unlock()
 	for t := 1; t <= k; t++ {
